@@ -105,12 +105,13 @@ def check_spec(ctx: Ctx, case):
             return
     ctx.count(sub, case, (exp is not None and nd >= 2) or (exp is None and nonmult),
               [exp[0] if exp else "accepted", f"ndarray-{case.get('array_dtype', 'float64')}" if as_array else "list"] +
-              (["beyond-2^53"] if case.get("huge") else []))
+              (["beyond-2^53"] if case.get("huge") else []) + (["verbose"] if case.get("verbose") else []) +
+              ([">=100-parameters"] if len(prec) >= 100 else []))
     dt = case.get("array_dtype", "float64")
     b_arg = np.array(bounds, dtype=dt) if as_array else bounds
     p_arg = np.array(prec, dtype=dt) if as_array else prec
     try:
-        space = ss.SearchSpace(b_arg, p_arg, verbose=False)
+        space = ss.SearchSpace(b_arg, p_arg, verbose=bool(case.get("verbose", False)))
     except ss.SearchSpaceError as e:
         got = type(e).__name__
         if exp is None:
@@ -280,6 +281,11 @@ def random_specs(draw):
             lo, _, p = draw(param())
             m = draw(st.integers(2000, 60000))
             ps.append((lo, lo + m * p, p))
+    if draw(st.integers(0, 19)) == 0:
+        # hundreds of parameters: the number of grid points exceeds the largest double (an exact Python integer still)
+        d = draw(st.integers(100, 220))
+        m = draw(st.sampled_from([10, 100, 100, 1000]))
+        ps = [(float(i % 7), float(i % 7) + m * 0.5, 0.5) for i in range(d)]
     bounds = [[a for a, _, _ in ps], [b for _, b, _ in ps]]
     prec = [c for _, _, c in ps]
     defect = draw(st.sampled_from(["none", "none", "none", "equal", "inverted", "zero", "toolarge", "preclen", "boundlen",
@@ -309,7 +315,7 @@ def random_specs(draw):
         # plain Python integers where the numbers are integral (users write [[0, 10]], [1])
         bounds = [[int(v) if float(v).is_integer() and abs(v) < 1e15 else v for v in b] for b in bounds]
         prec = [int(v) if float(v).is_integer() and abs(v) < 1e15 else v for v in prec]
-    return {"sub": "random", "bounds": bounds, "precision": prec, "as_array": as_array}
+    return {"sub": "random", "bounds": bounds, "precision": prec, "as_array": as_array, "verbose": draw(st.booleans())}
 
 
 SUBCHECKS = {"lattice2": check_spec, "lattice3": check_spec, "random": check_spec, "spec": check_spec}
